@@ -1,0 +1,6 @@
+//go:build !verif
+
+package consensus
+
+// no-op without the "verif" build tag (see verif_on.go)
+func verifStep(cs *State, mi *msgInfo, ti *timeoutInfo) {}
